@@ -280,7 +280,9 @@ class Engine:
                 allf = json.load(open(path))
             except FileNotFoundError:
                 continue
-            out += [f for f in allf.get("findings", []) if f.get("property") == self.pid]
+            for f in allf.get("findings", []):
+                if f.get("property") == self.pid and f.get("key") not in {g.get("key") for g in out}:
+                    out.append(f)
         return out
 
     def classify(self, v):
